@@ -67,6 +67,10 @@ def field(ty, name="", dw=""):
 
 def enum(did, variants, style="none", prefix=None, aci=False, phf=False, perr=False, cis=False, generics="none",
          repr_="none", crate="none", split=0, name=None, **extra):
+    # every definition may write its variant attributes in another order (deterministic per definition)
+    for k, v in enumerate(variants):
+        if "order" not in v and (did + k) % 3:
+            v["order"] = did * 31 + k + 1
     d = dict(id=did, name=name or ("E%d" % did), namecp=cp(name or ("E%d" % did)), style=style, prefix=[] if prefix is None else [cp(prefix)], aci=aci,
              phf=phf, perr=perr, cis=cis, generics=generics, repr=repr_, crate=crate, split=split,
              variants=list(variants))
@@ -114,6 +118,18 @@ def variant_attr_items(v):
             else:
                 ps.append("%s = %s" % (key, p.get("src") or uncp(p["val"])))
         it.append("props(%s)" % ", ".join(ps))
+    # optional reordering (v["order"] = seed): the order in which a user writes the items must not matter, except that
+    # serialize literals keep their relative order (it is part of the definition) and props groups keep theirs
+    if v.get("order"):
+        import random as _r
+        rng = _r.Random(v["order"])
+        fixed = [x for x in it if x.startswith("serialize =") or x.startswith("props(")]
+        free = [x for x in it if not (x.startswith("serialize =") or x.startswith("props("))]
+        rng.shuffle(free)
+        out = list(fixed)
+        for x in free:
+            out.insert(rng.randrange(len(out) + 1), x)
+        it = out
     return it
 
 
